@@ -271,6 +271,12 @@ def run(ctx: Ctx, rs: RuleSet, tier: str):
            ctx.loc(repl[0][2], repl[0][1]) if repl else '')
 
   # ---- TaggedValue expansion on assignment
+  # ---- tags survive diff application: the tag comparison is never skipped
+  from fdlstatic.rules import c10
+  rs.declare('INDEP.diff-tags', 'build_diff compares the tags of aligned '
+             'Buildables whatever else differs', 1)
+  c10.buildable_facets(ctx, rs, 'INDEP.diff-tags', only={'tags'})
+
   rule = 'SHAPE.tagged-value'
   rs.declare(rule, 'assigning a TaggedValue merges tags then stores the '
              'unwrapped value (or nothing); building it returns the value or '
